@@ -321,6 +321,33 @@ void vmul_mixed(vr::rng &g, const char *be, const char *ty, int reps) {
     } catch (const std::exception &e) { vr::obj o = head("vmul", be, ty, K, "yz"); o.str("exc", e.what()); vr::emit(o.done()); }
 }
 
+// reinterpret_as_rhs called directly (as make_block_solver / as_block do): the scalar vectors viewed as block
+// vectors go through the element-wise primitives; results are read back from the scalar storage
+template <class Block, class VS, class Coef>
+void reint_ops(vr::rng &g, const char *ty, int reps) {
+    Kind K = kind_of<Block>(); const int W = K.W();
+    for (int rep = 0; rep < reps; ++rep) try {
+        int n = g.range(1, 14); size_t ls = (size_t)n * K.b;
+        FV x = gen_fv(g, n, W), y = gen_fv(g, n, W); CF a = pick<Coef>(g), b = pick<Coef>(g, 0.5);
+        if (b.zero()) poison(g, y);
+        H<VS> Xs(ls), Ys(ls); fill(Xs.get(), ls, x); fill(Ys.get(), ls, y);
+        const VS &cx = Xs.get();
+        auto X = backend::reinterpret_as_rhs<Block>(cx);
+        auto Y = backend::reinterpret_as_rhs<Block>(Ys.get());
+        { vr::obj o = head("inner", "builtin", ty, K, "reinterpret"); FV y0 = y; for (auto &q : y0.p) q = 0; fill(Ys.get(), ls, y0);
+          auto r = backend::inner_product(X, Y); long long out[2] = {(long long)r, 0}; if (r != std::rint(r)) g_exact = false;
+          o.raw("x", fv_json(x)).raw("y", fv_json(y0)).ints("out", out, out + 2); put(o); fill(Ys.get(), ls, y); }
+        backend::axpby(mkc<Coef>::get(a), X, mkc<Coef>::get(b), Y);
+        { vr::obj o = head("axpby", "builtin", ty, K, "reinterpret"); o.raw("a", cf_json(a, K.cx)).raw("bb", cf_json(b, K.cx)).raw("x", fv_json(x)).raw("y", fv_json(y)).raw("out", fv_json(read(Ys.get(), ls, W))); put(o); }
+        FV z = gen_fv(g, n, W); poison(g, z); fill(Ys.get(), ls, z);
+        backend::copy(X, Y);
+        { vr::obj o = head("copy", "builtin", ty, K, "reinterpret"); o.raw("x", fv_json(x)).raw("y", fv_json(z)).raw("out", fv_json(read(Ys.get(), ls, W))); put(o); }
+        fill(Ys.get(), ls, z);
+        backend::clear(Y);
+        { vr::obj o = head("clear", "builtin", ty, K, "reinterpret"); o.raw("y", fv_json(z)).raw("out", fv_json(read(Ys.get(), ls, W))); put(o); }
+    } catch (const std::exception &e) { vr::obj o = head("axpby", "builtin", ty, K, "reinterpret"); o.str("exc", e.what()); vr::emit(o.done()); }
+}
+
 // copy between precisions (mixed-precision solvers copy float <-> double vectors)
 template <class V1, class V2> void copy_conv(vr::rng &g, const char *ty, int reps) {
     typedef typename elem_of<V1>::type E; Kind K = kind_of<E>(); K.b = VT<E>::R; const int W = K.W();
@@ -338,7 +365,7 @@ template <class T, int B> struct eblk { typedef Eigen::Matrix<T, B, B> M; typede
 int main(int argc, char **argv) {
     vr::install_terminate();
     uint64_t seed = vr::env_seed();
-    const int R = vr::env_int("VERIF_REPS", vr::thorough() ? 40 : 8);
+    const int R = vr::env_int("VERIF_REPS", vr::thorough() ? 60 : 12);
     vr::rng g(seed * 7919 + 100 * PART + 3);
     typedef std::complex<double> cd; typedef std::complex<float> cf;
     using backend::numa_vector;
@@ -385,6 +412,10 @@ int main(int argc, char **argv) {
     vmul_mixed< numa_vector< blk<double,2>::M >, numa_vector<double>, double >(g, "builtin", "static_matrix<double,2,2>", R);
     vmul_mixed< std::vector< blk<double,3>::M >, std::vector<double>, double >(g, "builtin", "static_matrix<double,3,3>", R);
     vmul_mixed< std::vector< eblk<double,2>::M >, std::vector<double>, double >(g, "builtin", "Eigen::Matrix<double,2,2>", R);
+    reint_ops< blk<double,2>::M, std::vector<double>, double >(g, "static_matrix<double,2,2>", R);
+    reint_ops< blk<double,3>::M, numa_vector<double>, double >(g, "static_matrix<double,3,3>", R);
+    reint_ops< blk<float,4>::M, std::vector<float>, float >(g, "static_matrix<float,4,4>", R);
+    reint_ops< eblk<double,3>::M, std::vector<double>, double >(g, "Eigen::Matrix<double,3,3>", R);
 #endif
 #if PART == 0 || PART == 3
     // ---- block_crs backend: block sizes 1..4 on matrices whose sizes need not be divisible
@@ -400,6 +431,9 @@ int main(int argc, char **argv) {
     elem_ops< EVf, EVf, float >(g, "eigen", "float", R);
     mat_ops< EigenP<double>, EVd, EVd, double >(g, "eigen", "double", "", 2 * R);
     mat_ops< EigenP<float>, EVf, EVf, float >(g, "eigen", "float", "", R);
+    typedef Eigen::Matrix<cd, Eigen::Dynamic, 1> EVc;
+    elem_ops< EVc, EVc, cd >(g, "eigen", "complex<double>", R);
+    mat_ops< EigenP<cd>, EVc, EVc, cd >(g, "eigen", "complex<double>", "", R);
     // ---- hybrid backend: block matrix (converted by the backend), scalar vectors
     mat_ops< HybridP< blk<double,2>::M >, numa_vector<double>, numa_vector<double>, double >(g, "builtin_hybrid", "static_matrix<double,2,2>", "xy", 2 * R);
     mat_ops< HybridP< blk<double,3>::M >, numa_vector<double>, numa_vector<double>, double >(g, "builtin_hybrid", "static_matrix<double,3,3>", "xy", R);
